@@ -123,6 +123,10 @@ pub fn string_pairs(r: &mut StdRng, n_random: usize) -> Vec<(String, String)> {
         ("x\u{a0}".into(), "x".into()),               // trailing no-break space
         ("y".repeat(255), "y".repeat(256)),         // one-byte length boundary
         ("z".repeat(65535), "z".repeat(65536)),     // two-byte length boundary
+        // the two base64url symbols that differ from standard base64: "ab?" -> YWI_ , "ab>" -> YWI-
+        ("ab?".into(), "ab>".into()),
+        ("https://keys.example.com/v4/k?kid=7".into(), "~~~>>>???".into()),
+        ("k\u{bf}".into(), "o\u{e9}~".into()),
     ];
     for _ in 0..n_random {
         let la = r.gen_range(1..40);
